@@ -82,14 +82,21 @@ BlocksIn(stmts, origin) ==
   ELSE LET a == BlocksOfNode(Head(stmts), origin)  b == BlocksIn(Tail(stmts), origin) IN
        [x \in (DOMAIN a) \cup (DOMAIN b) |-> IF x \in DOMAIN b THEN b[x] ELSE a[x]]   \* a later definition wins
 
-RECURSIVE MacrosIn(_, _)
+(* the macros of a template: every macro tag, wherever it is written (the parser registers a macro when it reads the tag,
+   also inside the body of an if, a loop, a block, a capture, a filter section or another macro); a later definition wins *)
+RECURSIVE MacrosIn(_, _), MacrosOfNode(_, _)
+MergeM(a, b) == [x \in (DOMAIN a) \cup (DOMAIN b) |-> IF x \in DOMAIN b THEN b[x] ELSE a[x]]
+MacrosOfNode(n, origin) ==
+  CASE n.k = "macro" -> MergeM(MacrosIn(n.body, origin), Bind(EmptyScope, n.name, [params |-> n.params, body |-> n.body, origin |-> origin]))
+    [] n.k \in {"block", "setcap", "filter"} -> MacrosIn(n.body, origin)
+    [] n.k = "for" -> MergeM(MacrosIn(n.body, origin), MacrosIn(n.els, origin))
+    [] n.k = "if" -> LET RECURSIVE Br(_)
+                         Br(bs) == IF bs = <<>> THEN EmptyScope ELSE MergeM(MacrosIn(bs[1].body, origin), Br(Tail(bs)))
+                     IN MergeM(Br(n.branches), MacrosIn(n.els, origin))
+    [] OTHER -> EmptyScope
 MacrosIn(stmts, origin) ==
   IF stmts = <<>> THEN EmptyScope
-  ELSE LET n == Head(stmts)
-           a == IF n.k = "macro" THEN Bind(EmptyScope, n.name, [params |-> n.params, body |-> n.body, origin |-> origin])
-                ELSE EmptyScope
-           b == MacrosIn(Tail(stmts), origin)
-       IN [x \in (DOMAIN a) \cup (DOMAIN b) |-> IF x \in DOMAIN b THEN b[x] ELSE a[x]]
+  ELSE MergeM(MacrosOfNode(Head(stmts), origin), MacrosIn(Tail(stmts), origin))
 
 ExtendsOf(stmts) == LET idx == {i \in 1..Len(stmts) : stmts[i].k = "extends"} IN
                     IF idx = {} THEN NoE ELSE stmts[CHOOSE i \in idx : \A j \in idx : i <= j].x
